@@ -36,6 +36,9 @@ type modelStore struct {
 	// fails (-1 = never).
 	StreamFault func(d digest.Digest) int
 	ProtoAC     bool           // objects are ActionResult messages (AC backend)
+	// TrackSources: keep the close-counting statistics of every stream handed out
+	TrackSources bool
+	Sources      []*sim.SrcStats
 	InFlight    map[string]int // op -> calls currently inside
 	MaxInFlight map[string]int
 	seq         func() int
@@ -135,6 +138,9 @@ func (m *modelStore) Get(ctx context.Context, d digest.Digest) buffer.Buffer {
 		cuts = []int{len(data) / 2}
 	}
 	src := sim.NewChunkSource(m.Name+".stream", &sim.SrcScript{Data: data, Cuts: cuts, ErrAt: errAt, Err: status.Errorf(codes.Unavailable, "%s: injected stream failure", m.Name)})
+	if m.TrackSources {
+		m.Sources = append(m.Sources, src.St)
+	}
 	m.leave(call, nil)
 	return buffer.NewCASBufferFromChunkReader(d, src, buffer.BackendProvided(func(bool) {}))
 }
